@@ -22,6 +22,19 @@ pub struct Op {
     /// 1 for the hidden conversion stage of slice / range sources
     #[serde(default)]
     pub h: u8,
+    /// the parameter value is v << sh (sh = 64: usize::MAX); lets jobs name values beyond 2^31
+    #[serde(default)]
+    pub sh: u32,
+}
+
+impl Op {
+    pub fn value(&self) -> usize {
+        if self.sh >= 64 {
+            usize::MAX
+        } else {
+            (self.v as usize).checked_shl(self.sh).unwrap_or(usize::MAX).max(self.v as usize)
+        }
+    }
 }
 
 #[derive(Serialize, Deserialize, Clone, Debug, Default)]
